@@ -7,7 +7,7 @@ use std::slice;
 use imp::port::Port as _;
 
 use super::{
-    bool8_t, copy_info, imp, GenTlError, GenTlResult, ModuleHandle, GC_ERROR, INFO_DATATYPE,
+    assert_non_null, bool8_t, copy_info, imp, GenTlError, GenTlResult, ModuleHandle, GC_ERROR, INFO_DATATYPE,
 };
 
 pub(super) type PORT_HANDLE = *mut libc::c_void;
@@ -168,6 +168,8 @@ gentl_api! {
         pBuffer: *mut libc::c_void,
         piSize: *mut libc::size_t,
     ) -> GenTlResult<()> {
+        assert_non_null(piType)?;
+        assert_non_null(piSize)?;
         let handle = unsafe { ModuleHandle::from_raw_manually_drop(hPort)? };
 
         let info_data_type = with_port!(handle, |port| {
@@ -240,6 +242,7 @@ gentl_api! {
         sURL: *mut libc::c_char,
         piSize: *mut libc::size_t,
     ) -> GenTlResult<()> {
+        assert_non_null(piSize)?;
         let handle = unsafe { ModuleHandle::from_raw_manually_drop(hPort)? };
         let url = with_port!(handle, |port| {
             // Use first  info.
@@ -254,6 +257,7 @@ gentl_api! {
 
 gentl_api! {
     pub fn GCGetNumPortURLs(hPort: PORT_HANDLE, piNumURLs: *mut u32) -> GenTlResult<()> {
+        assert_non_null(piNumURLs)?;
         let handle = unsafe { ModuleHandle::from_raw_manually_drop(hPort)? };
         let num_port = with_port!{handle, |port| {
             let xml_infos = port.xml_infos()?;
@@ -277,6 +281,8 @@ gentl_api! {
         pBuffer: *mut libc::c_void,
         piSize: *mut libc::size_t,
     ) -> GenTlResult<()> {
+        assert_non_null(piType)?;
+        assert_non_null(piSize)?;
         let handle = unsafe { ModuleHandle::from_raw_manually_drop(hPort)? };
         let info_data_type = with_port!(handle, |port| {
             let info = port
@@ -388,6 +394,7 @@ gentl_api! {
         piSize: *mut libc::size_t,
     ) -> GenTlResult<()> {
         unsafe {
+            assert_non_null(piSize)?;
             check_buffer(pBuffer, *piSize)?;
             let handle = ModuleHandle::from_raw_manually_drop(hPort)?;
             let buffer = std::slice::from_raw_parts_mut(pBuffer.cast::<u8>(), *piSize);
@@ -411,6 +418,7 @@ gentl_api! {
         piSize: *mut libc::size_t,
     ) -> GenTlResult<()> {
         unsafe {
+            assert_non_null(piSize)?;
             check_buffer(pBuffer, *piSize)?;
             let handle = ModuleHandle::from_raw_manually_drop(hPort)?;
             let data = std::slice::from_raw_parts(pBuffer.cast::<u8>(), *piSize);
@@ -432,6 +440,8 @@ gentl_api! {
         piNumEntries: *mut libc::size_t,
     ) -> GenTlResult<()> {
         unsafe {
+            assert_non_null(pEntries)?;
+            assert_non_null(piNumEntries)?;
             for i in 0..*piNumEntries {
                 let raw_ent = *pEntries.add(i);
                 check_buffer(raw_ent.pBuffer, raw_ent.Size)?;
@@ -462,6 +472,8 @@ gentl_api! {
         piNumEntries: *mut libc::size_t,
     ) -> GenTlResult<()> {
         unsafe {
+            assert_non_null(pEntries)?;
+            assert_non_null(piNumEntries)?;
             for i in 0..*piNumEntries {
                 let raw_ent = *pEntries.add(i);
                 check_buffer(raw_ent.pBuffer, raw_ent.Size)?;
